@@ -37,6 +37,12 @@ pub const SAN_ROOTS: &[&str] = &[
     "6k1/5ppp/8/8/8/8/8/R3K3 w Q - 0 1",
     "8/8/8/8/k2Pp2Q/8/8/3K4 b - d3 0 1",
     "B7/8/8/3B4/8/8/6B1/k3K3 w - - 0 1",
+    // five and more men of one kind converging on a square; more than 128 legal moves
+    "R6R/3Q4/1Q4Q1/4Q3/2Q4Q/Q4Q2/pp1Q4/kBNN1KB1 w - - 0 1",
+    "7k/7p/Q1Q1Q3/6Q1/1Q6/3Q1Q2/Q1Q5/4K2R w K - 0 1",
+    "3k4/8/8/8/8/N1N1N3/1N1N4/N1N1K3 w - - 0 1",
+    "6k1/8/1N1N4/N3N3/2p5/N3N3/1N1N4/6K1 w - - 0 1",
+    "4k3/8/8/1R1R1R2/8/1R1R1R2/8/4K3 w - - 0 1",
 ];
 
 fn fail(run: &Run, clause: &str, shape: &str, detail: String, p: &RefPos, text: &str) -> bool {
@@ -295,6 +301,9 @@ pub fn run(tier: Tier) -> i32 {
     }
     let epf = EpFamily { extra: Extra::None, pre_push: false };
     light.extend((0..epf.size()).step_by(tier.pick(7, 1)).filter_map(|i| epf.get(i)));
+    // a capturer on both sides: "cxd6" / "exd6" need their file, and either may be pinned
+    let epf2 = EpTwoFamily { extra: Extra::None, pre_push: false };
+    light.extend((0..epf2.size()).step_by(tier.pick(5, 1)).filter_map(|i| epf2.get(i)));
     light.retain(|p| seen.insert(*p));
     run.note("positions_with_grammar_and_safety", json!(full.len()));
     run.note("positions_with_spellings", json!(light.len()));
